@@ -15,7 +15,7 @@ MANIFEST = {
                'search over list-file rewrite/delete/reload histories',
   'text': 'List files are all sequences of up to 2 (thorough 3) lines from a pool with anchored/unanchored patterns, '
           'comments, blank, padded and invalid lines, loaded by the real RegexList.read_list(); every name of the alphabet '
-          'is sent through the line, UDP and pickle listeners and the delivery verdict, the delivered name/value/'
+          '(pool incl. capturing groups, a back-reference and an inline flag) is sent through the line, UDP and pickle listeners and the delivery verdict, the delivered name/value/'
           'timestamp and the blacklistMatches/whitelistRejects counters are compared with the reference; timestamps '
           '(-1, fractional, boundaries) x MIN_TIMESTAMP_RESOLUTION 0/1/10/60 x values incl. inf/nan are enumerated '
           'for representative list files.',
@@ -23,8 +23,8 @@ MANIFEST = {
           'an empty effective whitelist filters nothing. carbon.protocols.time is fixed.',
 }
 
-LINES = ['^a\\.', 'b$', '.*', 'x+', 'a.b', '# c', '', '  ', '(', ' ^a ']
-NAMES = ['a.b', 'ab', 'b', 'xa.b', 'c', 'a.bb', 'A.B', 'é.b']
+LINES = ['^a\\.', 'b$', '.*', 'x+', 'a.b', '# c', '', '  ', '(', ' ^a ', '(a|x)\\.b', '^(.)\\1', '(?i)^A\\.']
+NAMES = ['a.b', 'ab', 'b', 'xa.b', 'c', 'a.bb', 'A.B', 'é.b', 'bb', 'aa.b']
 VALUES = [0.0, 1.5, math.inf, -math.inf, math.nan]
 TIMESTAMPS = [-1, 0, 59, 60, 61, 61.7, 1e9 + 0.25]
 RESOLUTIONS = [0, 1, 10, 60]
